@@ -73,6 +73,11 @@ func (p *Pair) Impl(op Op, timeout time.Duration) Result {
 // `need <lines>`; the real Join result is computed here (the rassemble-go version /repo's go.mod
 // resolves), stored in the driver's table (`join.add`) and the op is run again.
 func (p *Pair) Model(op Op, timeout time.Duration) Result {
+	// `cli.X@variant`: the same command on the same tree laid out differently on disk (files behind symbolic links,
+	// read-only files): the model knows files by path and contents only, so its prediction is the same
+	if i := strings.Index(op.Name, "@"); i >= 0 {
+		op = Op{op.Name[:i], op.Args}
+	}
 	if op.Name == "gen.runYaml" && len(op.Args) >= 8 {
 		// the model takes the six patterns as the loader delivers them: an absent, empty or unreadable file means none
 		args := append([][]byte{}, op.Args[1:]...)
